@@ -37,7 +37,7 @@ def items(tier):
             if kind == "adaptive_w" and not smp.startswith("static"):
                 continue
             out.append({"name": "single|%s|%s" % (kind, smp), "fam": "single", "kind": kind, "sampler": smp, "tier": tier, "cost": 3})
-    for fam in ("periodic", "integro", "parameter", "data", "pideeponet", "deeponetdata"):
+    for fam in ("periodic", "integro", "parameter", "data", "pideeponet", "deeponetdata", "actderiv"):
         out.append({"name": fam, "fam": fam, "tier": tier, "cost": 2})
     return out
 
@@ -539,6 +539,66 @@ def fam_pideeponet(item, res, viol, calls):
                 exp_doc = float((rv ** 2).sum(dim=-1).mean())
                 if abs(loss - exp_doc) > 1e-5 * max(1, abs(exp_doc)):
                     viol("C04|loss-mismatch|pideeponet|out%d" % od, "%s: loss %.8g; mean over functions and points of the squared residual summed over components is %.8g" % (cfg, loss, exp_doc))
+                else:
+                    res["outcomes"].append(cfg)
+
+
+def fam_actderiv(item, res, viol, calls):
+    """derivatives of the model output that a residual takes (first AND second order) are the derivatives of the function the
+    model computes: compared with central finite differences of the model itself in float64 -- an oracle that does not go
+    through autograd, so hand-written autograd functions of the library's activations are covered"""
+    from torchphysics.models.activation_fn import ReLUn, Sinus, AdaptiveActivationFunction
+    Cn, S = tp.conditions, tp.samplers
+    acts = [("tanh", lambda: torch.nn.Tanh()), ("ReLUn(3)", lambda: ReLUn(3)), ("ReLUn(2)", lambda: ReLUn(2)), ("Sinus", lambda: Sinus()),
+            ("Adaptive(tanh)", lambda: AdaptiveActivationFunction(torch.nn.Tanh(), inital_a=0.8, scaling=1.3))]
+    X1 = Space({"x": 1})
+    for aname, mk in acts:
+        for hidden in ((4,), (3, 3)):
+            cfg = "actderiv|%s|hidden=%s" % (aname, hidden)
+            res["states"].append(cfg)
+            torch.manual_seed(17)
+            try:
+                model = tp.models.FCN(X1, Space({"u": 1}), hidden=hidden, activations=mk()).double()
+            except Exception as e:
+                viol("C04|error|%s|actderiv" % type(e).__name__, "%s: building the model raised %s: %s" % (cfg, type(e).__name__, str(e)[:100]))
+                continue
+            rec = []
+
+            def residual(u, x):
+                g = tp.utils.grad(u, x)
+                lap = tp.utils.laplacian(u, x)
+                rec.append({"x": x.detach().clone(), "u": u.detach().clone(), "g": g.detach().clone(), "lap": lap.detach().clone()})
+                return u + 0.5 * g - 0.1 * lap
+            xs = torch.linspace(0.15, 1.85, 7, dtype=torch.float64).reshape(-1, 1)
+            smp = S.DataSampler({"x": xs})
+            try:
+                cond = Cn.PINNCondition(model, smp, residual)
+                loss = float(cond(device="cpu"))
+            except Exception as e:
+                viol("C04|error|%s|actderiv" % type(e).__name__, "%s raised %s: %s" % (cfg, type(e).__name__, str(e)[:100]))
+                continue
+            res["evals"] += 1
+            res["transitions"] += 1
+            r = rec[-1]
+            h = 1e-4
+
+            def f(z):
+                with torch.no_grad():
+                    return model(Points(z, X1)).as_tensor
+            fd1 = (f(xs + h) - f(xs - h)) / (2 * h)
+            fd2 = (f(xs + h) - 2 * f(xs) + f(xs - h)) / (h * h)
+            e1 = float((r["g"] - fd1).abs().max())
+            e2 = float((r["lap"] - fd2).abs().max())
+            sc1 = max(1.0, float(fd1.abs().max()))
+            sc2 = max(1.0, float(fd2.abs().max()))
+            if e1 > 1e-5 * sc1:
+                viol("C04|derivative-mismatch|first|%s" % aname.split("(")[0], "%s: grad(u, x) inside the residual differs from the finite-difference derivative of the model by %.3g" % (cfg, e1))
+            elif e2 > 2e-4 * sc2:
+                viol("C04|derivative-mismatch|second|%s" % aname.split("(")[0], "%s: laplacian(u, x) inside the residual differs from the second finite difference of the model by %.3g (values up to %.3g)" % (cfg, e2, sc2))
+            else:
+                exp = float(torch.mean((f(xs) + 0.5 * fd1 - 0.1 * fd2) ** 2))
+                if abs(loss - exp) > 1e-4 * max(1.0, abs(exp)):
+                    viol("C04|loss-mismatch|actderiv", "%s: loss %.8g, mean squared residual from finite differences %.8g" % (cfg, loss, exp))
                 else:
                     res["outcomes"].append(cfg)
 
